@@ -156,6 +156,12 @@ func Explore(sh *Shared, ec ExploreConfig) (*Report, error) {
 			mu.Unlock()
 			solver.Close()
 		}()
+		if lp := os.Getenv("BKLSYM_SMTLOG"); lp != "" && id == 0 {
+			if f, err := os.Create(lp); err == nil {
+				solver.Log = f
+				defer f.Close()
+			}
+		}
 		m := NewMachine(sh, ec.Cfg, solver)
 		for {
 			mu.Lock()
@@ -268,7 +274,6 @@ func (m *Machine) RunPath(pkg *ssa.Package, hfn *ssa.Function, prefix []int32, w
 	if m.solver.Dead() {
 		m.solver.Revive()
 	}
-	m.solver.BeginPath()
 	before := m.solver.Stats
 	defer func() {
 		r := recover()
@@ -341,7 +346,10 @@ func (m *Machine) RunPath(pkg *ssa.Package, hfn *ssa.Function, prefix []int32, w
 				fmt.Fprintf(os.Stderr, "engine error: %v\n%s\n", r, buf)
 			}
 		}
-		m.solver.EndPath()
+		if m.solverOpen {
+			m.solver.EndPath()
+			m.solverOpen = false
+		}
 		if m.solver.Dead() {
 			res.Status = "inconclusive"
 			res.Reason = "solver process died: " + m.solver.LastErr
